@@ -139,7 +139,6 @@ Definition ops_eqb (a b : obs) : bool :=
 
 Definition obs_eqb (a b : obs) : bool :=
   outcome_eqb (ob_outcome a) (ob_outcome b)
-  && ops_eqb a b
   && list_eqb event_eqb (ob_log a) (ob_log b)
   && match ob_outcome a with
      | OPanic | OOther => true      (* after a panic only outcome and log prefix are compared *)
@@ -159,8 +158,17 @@ Definition failed_lookups_eqb (a b : obs) : bool :=
   | _ => true
   end.
 
-Definition wcheck (c : wcase) : bool :=
+(* observation only: outcome, event log, every field, lookups (used where the registry calls are not what the
+   property is about: C05 ... C13) *)
+Definition wcheck_obs (c : wcase) : bool :=
   let m := model_obs repaired c in obs_eqb m (w_obs c) && failed_lookups_eqb m (w_obs c).
+
+(* ... and the registry history, op by op (C01 C02 C03 C04: instances, cycles, versions, the registry protocol) *)
+Definition wcheck (c : wcase) : bool :=
+  let m := model_obs repaired c in obs_eqb m (w_obs c) && failed_lookups_eqb m (w_obs c) && ops_eqb m (w_obs c).
+
+Definition wmismatches_obs (cs : list wcase) : list nat :=
+  map w_id (filter (fun c => negb (wcheck_obs c)) cs).
 
 Definition wmismatches (cs : list wcase) : list nat :=
   map w_id (filter (fun c => negb (wcheck c)) cs).
